@@ -389,7 +389,9 @@ Proof.
     - apply nopush_of_nc; [apply same_nc_refl|apply sig_only_refl]. }
   destruct ((tk x =? 7) && negb match sig_of x with Some c => rx_alive (set_idx s i) c | None => true end) eqn:E2.
   { injection H as <- <-. left. split; eauto. apply nopush_idx. }
-  unfold wait_publish_response in H. sk in H.
+  unfold wait_publish_response, stopped in H. sk in H.
+  destruct (negb (io s =? 0)) eqn:E0.
+  { injection H as <- <-. left. split; eauto. }
   destruct (negb (srem s =? 0)) eqn:E3.
   { injection H as <- <-. left. split; eauto. }
   destruct (memN id (ids s)) eqn:E4.
@@ -431,7 +433,9 @@ Proof.
     - apply next_id_spec in E1 as [? ?]. repeat split; auto. intros; contradiction.
     - injection E1 as <- <-. repeat split; auto. exists (idx s). ds s. reflexivity. }
   destruct H1 as (Hid & Htid & i & ->).
-  unfold wait_response in H. sk in H.
+  unfold wait_response, stopped in H. sk in H.
+  destruct (negb (io s =? 0)) eqn:E0.
+  { injection H as <- <-. left. split; eauto. apply nopush_idx. }
   destruct (negb (srem s =? 0)) eqn:E3.
   { injection H as <- <-. left. split; eauto. apply nopush_idx. }
   destruct (memN id (ids s)) eqn:E4.
@@ -465,17 +469,20 @@ Definition parked (s s' : sink) : Prop :=
   s' = set_waiters (set_chans s (chans s ++ [open_ch])) (waiters s ++ [length (chans s)]).
 
 Lemma window_then_proceed_spec s x s' st : window_then_proceed s x = (s', st) ->
+  (stopped s = true /\ st = TDone ST_DISCONNECTED /\ s' = s) \/
   (st = TParked (length (chans s)) /\ parked s s' /\ (cap s <= lenN (inflight s) \/ wrb s = true)) \/
   (lenN (inflight s) < cap s /\ wrb s = false /\
    (((exists e, st = TDone e) /\ nopush x s s') \/
     (exists id, st = TAwaitAck (length (chans s)) id /\ pushed x s s' id))).
 Proof.
   unfold window_then_proceed, wait_readiness, new_chan.
+  destruct (stopped s) eqn:ES.
+  { intros H. injection H as <- <-. left. auto. }
   destruct ((cap s <=? lenN (inflight s)) || wrb s) eqn:E.
-  - sk. intros H. injection H as <- <-. left. repeat split.
+  - sk. intros H. injection H as <- <-. right. left. repeat split.
     apply orb_true_iff in E as [E|E]; [left; now apply N.leb_le|now right].
   - intros H. apply orb_false_iff in E as [E1 E2]. apply N.leb_gt in E1.
-    right. repeat split; auto. now apply proceed_spec.
+    right. right. repeat split; auto. now apply proceed_spec.
 Qed.
 
 (* ---------------------------------------------------------------- operation 1 / 2: start and poll *)
@@ -521,7 +528,8 @@ Lemma send_res_of_window s x s1 st :
   io s <> 2 -> window_then_proceed s x = (s1, st) ->
   send_res s x (match st with TDone _ => drop_sig s1 x | _ => s1 end) st.
 Proof.
-  intros Hio H. apply window_then_proceed_spec in H as [(-> & P & C)|(L & W & [[(e & ->) N]|(id & -> & P)])].
+  intros Hio H. apply window_then_proceed_spec in H as [(_ & -> & ->)|[(-> & P & C)|(L & W & [[(e & ->) N]|(id & -> & P)])]].
+  - apply SE_fail. apply nopush_drop_sig, nopush_refl.
   - now apply SE_park.
   - apply SE_fail. now apply nopush_drop_sig.
   - now apply SE_push.
